@@ -15,12 +15,6 @@ Proof. unfold middle. cbn [skipn]. rewrite !Nat.sub_0_r. apply firstn_all. Qed.
 Lemma sat64_id z : (MINZ <= z <= MAXZ)%Z -> sat64 z = z.
 Proof. unfold sat64, MINZ, MAXZ. lia. Qed.
 
-(* The known finding K20 (DESIGN 7, item 20): a hunk with an empty old side that states line 0 is refused
-   whenever the file is not empty, although diff -U0 / -C0 / normal diffs emit exactly that for an insertion
-   at the top of a file. *)
-Definition top_insertion (f : list line) (h : hunk) : Prop :=
-  rcount (oldr h) = 0%Z /\ rstart (oldr h) = 0%Z /\ f <> [].
-
 (* the locator on a file that carries the hunk's old side at the stated place *)
 Lemma locate_conf ws F cursor (f pre post : list line) (h : hunk) :
   f = pre ++ old_side (body h) ++ post ->
@@ -29,10 +23,9 @@ Lemma locate_conf ws F cursor (f pre post : list line) (h : hunk) :
   rstart (oldr h) = (if Z.eqb (rcount (oldr h)) 0 then Z.of_nat (length pre) else Z.of_nat (length pre) + 1)%Z ->
   cursor <= length pre -> (0 <= F)%Z ->
   (Z.of_nat (length f) < MAXZ)%Z ->
-  ~ top_insertion f h ->
   locate_hunk f h ws 0 F cursor = Some (mkLoc (length pre) 0 0).
 Proof.
-  intros Ef Hb Hc Hs Hcur HF Hlen Hk.
+  intros Ef Hb Hc Hs Hcur HF Hlen.
   assert (Hpre : (Z.of_nat (length pre) < MAXZ)%Z).
   { rewrite Ef in Hlen. rewrite app_length in Hlen. lia. }
   destruct (Z.eqb (rcount (oldr h)) 0) eqn:E.
@@ -42,7 +35,6 @@ Proof.
       unfold sadd, ssub, sat64, MINZ, MAXZ in *. lia. }
     rewrite (locate_insertion_complete f h ws 0 F cursor E).
     + rewrite Hsp. rewrite Nat2Z.id. reflexivity.
-    + intros [A B]. apply Hk. repeat split; assumption.
     + rewrite Hsp. rewrite Ef. rewrite app_length. lia.
   - apply Z.eqb_neq in E.
     assert (Hold : old_side (body h) <> []).
@@ -106,14 +98,20 @@ Proof.
   rewrite write_hunk_splice. cbn [rbind fst snd]. cbn. reflexivity.
 Qed.
 
-Definition no_top_insertion (f : list line) (hs : list hunk) : Prop :=
-  forall h, In h hs -> ~ top_insertion f h.
+(* a patch that creates a file (old file /dev/null) is only meaningful against an absent or empty file *)
+Definition creation_guard (p : patch) (f : list line) : Prop := creates_file p = true -> f = [].
+
+Lemma locate_for_guard p f h ws off F lo : creation_guard p f -> locate_for p f h ws off F lo = locate_hunk f h ws off F lo.
+Proof.
+  intros G. unfold locate_for. destruct (creates_file p) eqn:E; [|reflexivity].
+  rewrite (G E). reflexivity.
+Qed.
 
 Lemma apply_rest_conf o p : define_macro o = [] -> verbose o = false -> (0 <= max_fuzz o)%Z ->
   forall hs a b A' B' done s k f,
   Conf a b A' B' hs -> f = done ++ A' -> length done = a ->
   (Z.of_nat (length f) < MAXZ)%Z ->
-  no_top_insertion f hs ->
+  creation_guard p f ->
   a_ln s = a -> a_offerr s = 0%Z -> a_skip s = false ->
   exists s', apply_rest o p f k s hs = Ok s' /\
              a_out s' ++ skipn (a_ln s') f = a_out s ++ B' /\
@@ -124,7 +122,7 @@ Proof.
   - inversion HC; subst. exists s. cbn [apply_rest]. rewrite Hln.
     rewrite skipn_app, skipn_all, Nat.sub_diag. cbn. repeat split; auto.
   - inversion HC as [|a0 b0 gap h0 hs0 A0 B0 Hb Hoc Hnc Hos Hns HC']; subst a0 b0 h0 hs0 A' B'.
-    cbn [apply_rest]. rewrite Hoff.
+    cbn [apply_rest]. rewrite Hoff. rewrite (locate_for_guard p f h _ _ _ _ Hk).
     assert (E1 : f = (done ++ gap) ++ old_side (body h) ++ A0) by (rewrite Ef, <- app_assoc; reflexivity).
     assert (E2 : f = (done ++ gap ++ old_side (body h)) ++ A0) by (rewrite Ef, <- !app_assoc; reflexivity).
     assert (Lg : length (done ++ gap) = a + length gap) by (rewrite app_length; lia).
@@ -134,7 +132,7 @@ Proof.
       destruct (IH _ _ A0 B0 (done ++ gap ++ old_side (body h)) s1 (S k) f HC' E2) as (s' & Es & Ho & Hr & Hrej & Hs' & Hp & Hm).
       * rewrite !app_length. lia.
       * exact Hmax.
-      * intros h' Hin. apply Hk. right. exact Hin.
+      * exact Hk.
       * unfold s1. cbn [a_ln]. rewrite Lg. lia.
       * unfold s1. cbn [a_offerr]. rewrite Hoff. reflexivity.
       * reflexivity.
@@ -148,11 +146,10 @@ Proof.
     + rewrite Lg. lia.
     + exact HF.
     + exact Hmax.
-    + apply Hk. left. reflexivity.
 Qed.
 
 Lemma apply_first_perfect o p f s h hs :
-  loc_perfect (locate_hunk f h (ignore_whitespace o) (a_offerr s) (max_fuzz o) (a_ln s)) = true ->
+  loc_perfect (locate_for p f h (ignore_whitespace o) (a_offerr s) (max_fuzz o) (a_ln s)) = true ->
   apply_first o p f s (h :: hs) = apply_rest o p f 0 s (h :: hs).
 Proof.
   intros H. cbn [apply_first apply_rest]. unfold should_check_if_patch_is_reversed. rewrite H. reflexivity.
@@ -163,7 +160,7 @@ Definition effective (o : options) (p : patch) : patch := if reverse_patch_opt o
 Theorem apply_conforming_gen o p A B :
   define_macro o = [] -> verbose o = false -> (0 <= max_fuzz o)%Z ->
   Conforming A B (hunks (effective o p)) -> (Z.of_nat (length A) < MAXZ)%Z ->
-  no_top_insertion A (hunks (effective o p)) ->
+  creation_guard (effective o p) A ->
   exists r, apply_patch o A p = Ok r /\ r_out r = B /\ r_failed r = 0 /\ r_rej r = [] /\
             r_skipped r = false /\ r_perfect r = true /\ r_msgs r = [].
 Proof.
@@ -178,13 +175,12 @@ Proof.
     destruct (hunks p1) as [|h hs] eqn:Eh; [exact Es|].
     rewrite apply_first_perfect; [exact Es|].
     unfold Conforming in HC. inversion HC as [|a0 b0 gap h0 hs0 A0 B0 Hb Hoc Hnc Hos Hns HC' Ea Eb]; subst.
-    cbn [a_offerr a_ln init_state].
+    cbn [a_offerr a_ln init_state]. rewrite (locate_for_guard p1 _ h _ _ _ _ Hk).
     rewrite (locate_conf (ignore_whitespace o) (max_fuzz o) 0 (gap ++ old_side (body h) ++ A0) gap A0 h eq_refl Hb Hoc Hos).
     - reflexivity.
     - lia.
     - exact HF.
-    - exact Hmax.
-    - apply Hk. left. reflexivity. }
+    - exact Hmax. }
   destruct Hrest as (s' & Es & Ho & H1 & H2 & H3 & H4 & H5). rewrite Es. cbn [rbind].
   eexists. split; [reflexivity|]. cbn. repeat split; assumption.
 Qed.
@@ -194,7 +190,7 @@ Qed.
    line, none rejected, the run counted as perfect (hence no backup), no message, no question. *)
 Theorem apply_conforming o p A B :
   define_macro o = [] -> verbose o = false -> reverse_patch_opt o = false -> (0 <= max_fuzz o)%Z ->
-  Conforming A B (hunks p) -> (Z.of_nat (length A) < MAXZ)%Z -> no_top_insertion A (hunks p) ->
+  Conforming A B (hunks p) -> (Z.of_nat (length A) < MAXZ)%Z -> creation_guard p A ->
   exists r, apply_patch o A p = Ok r /\ r_out r = B /\ r_failed r = 0 /\ r_rej r = [] /\
             r_skipped r = false /\ r_perfect r = true /\ r_msgs r = [].
 Proof.
@@ -235,7 +231,7 @@ Qed.
 Theorem apply_reverse o p A B :
   define_macro o = [] -> verbose o = false -> reverse_patch_opt o = true -> (0 <= max_fuzz o)%Z ->
   Conforming A B (hunks p) -> (Z.of_nat (length B) < MAXZ)%Z ->
-  no_top_insertion B (map reverse_hunk (hunks p)) ->
+  creation_guard (reverse_patch p) B ->
   exists r, apply_patch o B p = Ok r /\ r_out r = A /\ r_failed r = 0 /\ r_rej r = [] /\
             r_skipped r = false /\ r_perfect r = true /\ r_msgs r = [].
 Proof.
